@@ -11,6 +11,7 @@ not import anything from vf.
 """
 import os
 import json
+import threading
 import time
 import hashlib
 
@@ -183,7 +184,12 @@ FAIL_EXCS = {"ProbeFailure": ProbeFailure, "StopIteration": StopIteration, "KeyE
              "ZeroDivisionError": ZeroDivisionError, "StopAsyncIteration": StopAsyncIteration}
 
 
+TLS = threading.local()     # TLS.nonroot = True: this thread plays a non-root MPI rank (the reduced value lives on rank 0 only)
+
+
 def probe_call(kwargs, kind, logfile=None, loglist=None, ctl=None, hidden=None):
+    if getattr(TLS, "nonroot", False):
+        return None
     c = _read_ctl(ctl)
     key = canon(kwargs)
     rec = {"k": key, "pid": os.getpid(), "t": time.monotonic_ns()}
